@@ -84,8 +84,9 @@ def sNoCache : Str := str% "no-cache"
 def quoteString (s : Str) : Str :=
   '"' :: (s.flatMap fun c => if validQDText c then [c] else ['\\', c]) ++ ['"']
 
-/-- one assignment of parseDirectives: later occurrence wins, except that an unqualified
-    no-cache is kept and two qualified ones name the fields of both lists -/
+/-- one assignment of parseDirectives: the FIRST occurrence of a directive is kept, except for
+    no-cache: an unqualified one wins wherever it stands, and two qualified ones name the fields of
+    both lists -/
 def directiveInsert (m : Directives) (k v : Str) : Directives :=
   match alookup k m with
   | some prev =>
@@ -96,7 +97,7 @@ def directiveInsert (m : Directives) (k v : Str) : Directives :=
         let fields := parseQuotedString v
         if fields.isEmpty then ainsert k v m
         else ainsert k (quoteString (prevFields ++ [','] ++ fields)) m
-    else ainsert k v m
+    else m
   | none => ainsert k v m
 
 /-- parseDirectives -/
